@@ -305,6 +305,16 @@ def LinkInfo.setBlockRef (li : LinkInfo) (t idx ref : Nat) : LinkInfo :=
 
 /-! ## linked blocks: read (`HLPread`) -/
 
+/-- `HPseek(off)`, `HP_read(n)` (af826f2): a transfer that is short because the file ends delivers zeros for the missing tail
+    when the space was handed out in this session and is not in the file yet (DD caching on, `FILE_END_DIRTY`, the range
+    below `f_end_off`); any other short read fails -/
+def File.hpRead (f : File) (off n : Nat) : Option Bytes :=
+  match diskRead f.disk off n with
+  | some bs => some bs
+  | none =>
+    if f.cache = true ∧ f.dirtyEnd = true ∧ off + n ≤ f.endOff then some ((List.range n).map (fun i => rd f.disk (off + i)))
+    else none
+
 /-- extent of the block element `(DFTAG_LINKED, ref)` -/
 def File.blockExt (f : File) (ref : Nat) : Option (Nat × Nat) :=
   match f.select DFTAG_LINKED ref with
@@ -319,7 +329,7 @@ def File.readBlock (f : File) (ref rel n : Nat) : Option Bytes :=
   | none => none
   | some (o, l) =>
     if rel > l then none
-    else diskRead f.disk (o + rel) (if n = 0 ∨ n + rel > l then l - rel else n)
+    else f.hpRead (o + rel) (if n = 0 ∨ n + rel > l then l - rel else n)
 
 /-- the read loop over the pieces; `acc` the bytes stored so far, `cnt` is `bytes_read`
     (a missing block counts `remaining` bytes of zeros) -/
@@ -674,7 +684,7 @@ def hreadCore (w : World) (h : Nat) (length : Int) : World × Res :=
         let dataLen := ddLen d
         let len : Int := if length = 0 ∨ length + a.posn > dataLen then dataLen - a.posn else length
         if len < 0 then (w, .data 0 [])   -- positioned beyond the end (appendable element): nothing to read (21b8ab5)
-        else match diskRead f.disk ((ddOff d).toNat + a.posn) len.toNat with
+        else match f.hpRead ((ddOff d).toNat + a.posn) len.toNat with
           | none => (w, .fail)
           | some bs => (w.setAcc h { a with posn := a.posn + len.toNat }, .data len bs)
 
